@@ -287,7 +287,9 @@ func (p c17Parts) yaml() string {
 func c17Base() c17Parts {
 	return c17Parts{rootRecv: "r0", childRecv: "r1",
 		receivers: "- name: r0\n- name: r1\n  webhook_configs:\n  - url: 'http://example.com/hook'\n",
-		intervals: "- name: t1\n  time_intervals:\n  - weekdays: ['monday']\n",
+		// every field shape of a time interval, incl. the end-of-day 24:00, negative days, names and a location
+		intervals: "- name: t1\n  time_intervals:\n  - weekdays: ['monday']\n" +
+			"  - times: [{start_time: '00:00', end_time: '06:30'}, {start_time: '23:00', end_time: '24:00'}]\n    weekdays: ['monday:wednesday', 'saturday']\n    days_of_month: ['1:3', '-3:-1', '15']\n    months: ['january:march', 'december', '7']\n    years: ['2030:2031', '2040']\n    location: 'Europe/Berlin'\n",
 		inhibit:   "- source_matchers: [ 's=\"1\"' ]\n  target_matchers: [ 't=\"1\"' ]\n  equal: [e]\n"}
 }
 
